@@ -415,20 +415,18 @@ def root_spelling(ctx, RSP, P) -> None:
     pd = first_param(d_)
     own = [n for n in ast.walk(d_.node) if isinstance(n, ast.Call) and ast.unparse(n.func) == "self._add_watch" and n.args and origins(d_.node, n.args[0]) == {(f"param:{pd}", ())}]
     ctx.check(bool(own), RSP, "Inotify._add_dir_watch watches its argument unchanged", "no _add_watch call receives the path parameter itself", d_.loc)
-    # E. _add_watch keys both maps by its argument
+    # E. _add_watch keys both maps by its argument (decided on the enumerated paths, helpers inlined)
     e_ = need("Inotify", "_add_watch")
     pe = first_param(e_)
     nk = 0
-    for n in ast.walk(e_.node):
-        if isinstance(n, ast.Assign) and len(n.targets) == 1 and isinstance(n.targets[0], ast.Subscript):
-            t = n.targets[0]
-            cont = ast.unparse(t.value)
-            if cont == "self._wd_for_path":
-                nk += 1
-                judge(e_, t.slice, lambda b: b == f"param:{pe}", "Inotify._add_watch path->wd key", codecs=set(), line=n.lineno)
-            elif cont == "self._path_for_wd":
-                nk += 1
-                judge(e_, n.value, lambda b: b == f"param:{pe}", "Inotify._add_watch wd->path value", codecs=set(), line=n.lineno)
+    for p in Enumerator(ReaderCfg(P, fault=False)).run(e_, selfcls="Inotify"):
+        if p.outcome[0] == "raise":
+            continue
+        keys = [x for x in p.flat() if x.kind == "setitem" and x.extra.get("container") == "self._wd_for_path"]
+        vals = [x for x in p.flat() if x.kind == "setitem" and x.extra.get("container") == "self._path_for_wd"]
+        nk += len(keys) + len(vals)
+        ctx.check(len(keys) == 1 and keys[0].extra.get("key") == pe, RSP, "Inotify._add_watch path->wd key", f"the path->wd entry is keyed by `{[x.extra.get('key') for x in keys]}` instead of the path argument itself", e_.loc)
+        ctx.check(len(vals) == 1 and vals[0].extra.get("value") == pe, RSP, "Inotify._add_watch wd->path value", f"the wd->path entry holds `{[x.extra.get('value') for x in vals]}` instead of the path argument itself", e_.loc)
     if nk < 2:
         raise AnalysisError("anchor vanished: Inotify._add_watch does not store both map entries")
     # F. the comparison in the emitter, and the decode helper
@@ -478,6 +476,8 @@ VARIANTS = [
     dict(name="B descriptor decoded unsigned (overflow record passes the filter)", expect="fire", rule="C07/thread-body-exception-flow", edits=[(IC, 'struct.unpack_from("iIII", event_buffer, i)', 'struct.unpack_from("IIII", event_buffer, i)')]),
     dict(name="E reader ends its loop through its own stop event", expect="silent", edits=[(IB, "        deleted_self = False\n        while self.should_keep_running() and not deleted_self:", "        while self.should_keep_running():"), (IB, "                        # was deleted, or filesystem was unmounted), stop watching for events\n                        deleted_self = True", "                        # was deleted, or filesystem was unmounted), stop watching for events\n                        self._stopped_event.set()"), (IB, "                    # Deleted the watched directory, stop watching for events\n                    deleted_self = True", "                    # Deleted the watched directory, stop watching for events\n                    self._stopped_event.set()")]),
     dict(name="B emitter lock never created", expect="fire", rule="C07/thread-body-exception-flow", edits=[(IN, "        self._lock = threading.Lock()\n        self._inotify: InotifyBuffer | None = None", "        self._inotify: InotifyBuffer | None = None")]),
+    dict(name="E map entries stored through a helper", expect="silent", edits=[(IC, "        self._wd_for_path[path] = wd\n        self._path_for_wd[wd] = path\n        return wd", "        self._set_watch_path(wd, path)\n        return wd"), (IC, "    @staticmethod\n    def _raise_error() -> None:", "    def _set_watch_path(self, wd, path) -> None:\n        self._wd_for_path[path] = wd\n        self._path_for_wd[wd] = path\n\n    @staticmethod\n    def _raise_error() -> None:")]),
+    dict(name="B map entry keyed by the normalised path", expect="fire", rule="C07/root-spelling-preserved", edits=[(IC, "        self._wd_for_path[path] = wd\n        self._path_for_wd[wd] = path\n        return wd", "        self._wd_for_path[os.path.normpath(path)] = wd\n        self._path_for_wd[wd] = path\n        return wd")]),
     dict(name="B reader normalises its root", expect="fire", rule="C07/root-spelling-preserved", edits=[(IC, "        self._path = path\n", "        self._path = path = os.path.normpath(path)\n")]),
     dict(name="B emitter resolves the root before watching", expect="fire", rule="C07/root-spelling-preserved", edits=[(IN, "        path = os.fsencode(self.watch.path)\n", "        path = os.path.realpath(os.fsencode(self.watch.path))\n")]),
     dict(name="B root test against the absolute path", expect="fire", rule="C07/root-spelling-preserved", edits=[(IN, "elif event.is_delete_self and src_path == self.watch.path:", "elif event.is_delete_self and src_path == os.path.abspath(self.watch.path):")]),
